@@ -15,8 +15,9 @@ EVID = os.path.join(VERIF, 'evidence')
 FIND = os.path.join(VERIF, 'findings')
 if os.environ.get('VERIF_REPO') and os.path.realpath(os.environ['VERIF_REPO']) != '/repo':
     # scratch runs against a mutated copy must not overwrite the evidence of the real tree
-    EVID = os.path.join('/tmp', 'vf-scratch-evidence')
-    FIND = os.path.join('/tmp', 'vf-scratch-findings')
+    _sc = os.environ.get('VERIF_SCRATCH_DIR') or '/tmp'
+    EVID = os.path.join(_sc, 'vf-scratch-evidence')
+    FIND = os.path.join(_sc, 'vf-scratch-findings')
 
 
 class Finding:
